@@ -11,5 +11,6 @@ CONSTANTS
  MaxOps = 1000
  Staged = TRUE
  InitAll = {}
+ SnapModes = {"copy"}
  DelUnderShadow = TRUE
 CHECK_DEADLOCK FALSE
